@@ -9,3 +9,8 @@ def add_obligations(pack, tier):
     run_contracts(pack, [(P.nr_step('C01'), None, P.replay_nr_step), (P.nr_solve('C01'),), (P.run('C01'), None, P.replay_run)])
     from contracts import C01_assembly
     C01_assembly.add_obligations(pack, tier)
+    # input data -> system base: the admittances of the balance equations are the per-unit values of the physical input data
+    from contracts import fn_pu
+    pack.assume('per-unit conversion of the input data (System.calc_pu_coeff, NumParam.set_pu_coeff) is part of C01 with the '
+                'textbook ratios stated in C11; verified pointwise for one arbitrary device of one arbitrary model')
+    run_contracts(pack, [(fn_pu.calc_pu_coeff('C01'),), (fn_pu.set_pu_coeff('C01'),)])
